@@ -68,6 +68,7 @@ class Contract:
     dict_hint: str = ""          # record type to prefer when a dict literal's keys fit several record types
     result_is: Any = None         # lambda over the arguments: the result is exactly this spec expression (functional contract)
     bounded_only: str = ""     # non-empty: the proof is not attempted; reason; only the bounded stand-in runs
+    standin: str = ""          # name prefix of the finite / bounded enumeration (pyvc/finite.py) that stands in for the proof
     file: str = ""
     notes: str = ""
 
@@ -477,6 +478,7 @@ class Registry:
                      loops=loops, inline=flag("inline"), trusted=flag("trusted"), generator=flag("generator"),
                      variants=variants, serves=serves, abstract=flag("abstract"), pure=flag("pure"), file=path,
                      bounded_only=kw["bounded_only"].value if "bounded_only" in kw else "",
+                     standin=kw["standin"].value if "standin" in kw else "",
                      result_is=kw.get("result_is"),
                      dict_hint=kw["dict_hint"].value if "dict_hint" in kw else "",
                      notes=kw["notes"].value if "notes" in kw else "")
